@@ -12,7 +12,11 @@ Streams
   pipeline    a module with `X = <expr>` / `def f(p=<expr>)` through the real builder, compared
               with the direct call (glue)
   unstring    string annotations: a quoted operator expression in every operand slot of every operator
-              and in the usual typing wrappers, through astutils.unstring_annotation
+              and in the usual typing wrappers (Literal through every accepted spelling keeps its
+              arguments quoted), through astutils.unstring_annotation
+  sequence    the same string-annotation text used several times (functions, modules, attribute) in
+              different contexts and orders, built from text and rendered as the templates do, in
+              documentation order and in reverse order
 
 For every case the model answer (`pyval render …`) is compared with the real colorizer's text and
 `is_complete`; the direct oracle re-parses the displayed text with CPython and compares `ast.dump`.
@@ -34,7 +38,7 @@ THEOREMS = [
     "Pyval.paren_table_old_exact", "Pyval.paren_table_old_counterexample",
     "Pyval.toDoc_flatten", "Pyval.parseA_ok", "Pyval.derives_core",
     "Pyval.render_groups_partial", "Pyval.render_groups_counterexample",
-    "Pyval.tuple_kept_partial", "Pyval.tuple_kept_counterexample", "Pyval.unstring_counterexample_old",
+    "Pyval.tuple_kept_partial", "Pyval.tuple_kept_counterexample", "Pyval.unstring_counterexample_old", "Pyval.render_use_independent",
     "Pyval.str_roundtrip", "Pyval.str_roundtrip_lines", "Pyval.strEscape_no_nul",
     "Pyval.bytes_roundtrip", "Pyval.bytes_roundtrip_old_counterexample",
     "Pyval.display_eq_render", "Pyval.display_const_full", "Pyval.nul_dropped_old_counterexample",
@@ -1161,9 +1165,12 @@ def unstring_tokens(node: ast.expr) -> List[str]:
 
 UNSTRING_WRAPS = ["{0}", "Optional[{0}]", "List[{0}] | None", "Dict[str, {0}]", "Callable[[{0}], x]", "f({0})",
                   "({0}, x)", "[{0}]", "Literal[{0}]", "-{0}", "x & {0}", "{0} | x", "not {0}", "x or {0}",
-                  "X[{0}] & y", "-{0}[k]"]
+                  "X[{0}] & y", "-{0}[k]",
+                  # Literal through every spelling accepted today: its arguments are values, they stay quoted
+                  "typing.Literal[{0}]", "typing_extensions.Literal[{0}]", "t.Literal[{0}]", "te.Literal[{0}, 'w']",
+                  "Optional[t.Literal[{0}, 'c']]", "Literal[{0}] | None", "x.y.Literal[{0}]"]
 UNSTRING_LITS = ['"a | b"', '"Foo"', '"a or b"', '"-a"', '"List[\'a | b\']"', '"a + b" * "c - d"', '"x[a, b]"',
-                 '"a if b else c"', '"(a, b)"', '"\'nested | s\' & z"', '"a < b"']
+                 '"a if b else c"', '"(a, b)"', '"\'nested | s\' & z"', '"a < b"', '"r"', '"a b"', '"r+"']
 
 
 def unstring_stream(ctx: Ctx) -> None:
@@ -1234,20 +1241,158 @@ def unstring_stream(ctx: Ctx) -> None:
         ctx.count("stream:unstring")
         if not r.is_complete:
             continue
-        try:
-            shown = ast.parse(text, mode="eval").body
-        except SyntaxError:
-            shown = None
-        if shown is not None and norm_dump(shown) == norm_dump(expected):
-            continue
-        # does the same expression, written without quotes, read back?  then the unquoting lost it
-        plain = ast.unparse(unstring_expected(ast.parse(ann, mode="eval").body))
-        v, _, _ = readback(plain, (0, 1, False))
-        sig = "annotation:unstringed-subtree-loses-parens" if v == "ok" else classify(plain, (0, 1, False), v)
-        ctx.fail(sig, {"annotation": ann},
-                 f"the annotation {ann} is displayed as {text!r}, which " +
-                 ("is not an expression" if shown is None else f"reads back as {ast.unparse(shown)!r}, not {plain!r}"))
+        v = annotation_verdict(ann, text)
+        if v is not None:
+            ctx.fail(v[0], {"annotation": ann}, v[1])
     ctx.compare("pyval-unstring", reqs, impls, pay)
+
+
+# --------------------------------------------------------------------------- annotation sequences (several uses of one string)
+
+SEQ_STRINGS = ["Read | Write", "a + b", "x or y", "-n", "p if q else r", "m < n", "List[a | b]", "Foo"]
+SEQ_CONTEXTS = ["Flags & {0}", "{0} & Flags", "{0}", "-{0}", "not {0}", "{0} and z", "z or {0}", "Optional[{0}]",
+                "({0}, z)", "{0} ** 2", "2 ** {0}", "Literal[{0}]", "t.Literal[{0}, 'w']"]
+
+
+def _count_strs(tree: ast.AST) -> int:
+    return sum(1 for n in ast.walk(tree) if isinstance(n, ast.Constant) and isinstance(n.value, str))
+
+
+def annotation_verdict(ann: str, text: str) -> Optional[Tuple[str, str]]:
+    """None when the displayed `text` reads back as the annotation `ann` after the documented unquoting
+    (Literal arguments stay strings); else (signature, explanation)"""
+    expected = unstring_expected(ast.parse(ann, mode="eval").body)
+    try:
+        shown = ast.parse(text, mode="eval").body
+    except SyntaxError:
+        shown = None
+    if shown is not None and norm_dump(shown) == norm_dump(expected):
+        return None
+    plain = ast.unparse(unstring_expected(ast.parse(ann, mode="eval").body))
+    what = f"the annotation {ann} is displayed as {text!r}, which " + \
+        ("is not an expression" if shown is None else f"reads back as {ast.unparse(shown)!r}, not {plain!r}")
+    if shown is not None and _count_strs(shown) < _count_strs(expected):
+        return "annotation:literal-arguments-unquoted", what
+    v, _, _ = readback(plain, (0, 1, False))
+    if v == "ok":
+        return "annotation:unstringed-subtree-loses-parens", what
+    return classify(plain, (0, 1, False), v), what
+
+
+def sequence_stream(ctx: Ctx) -> None:
+    """The SAME string-annotation text used several times — in one function, across functions, across
+    modules, as parameter / return / attribute annotation — in different operator contexts and orders,
+    built from text by the real builder and rendered as the templates do (pages.format_signature,
+    get_parsed_type) in documentation order and in reverse order.  Per use: the model renders a FRESH
+    tree (Pyval.render_use_independent), and the oracle re-parses what the reader sees."""
+    from pydoctor import model, epydoc2stan
+    from pydoctor.templatewriter import pages
+    from pydoctor.stanutils import flatten_text
+    from pydoctor.node2stan import gettext
+    reqs, impls, pay = [], [], []
+    plans: List[Tuple[str, List[List[str]]]] = []
+    # every string under an operator first and bare later, and the reverse; then random sequences
+    for s in SEQ_STRINGS:
+        q = repr(s)
+        for c in SEQ_CONTEXTS:
+            if c == "{0}":
+                continue
+            plans.append((s, [[c.format(q)], [q]]))
+            plans.append((s, [[q], [c.format(q)]]))
+            plans.append((s, [[c.format(q), q]]))
+            plans.append((s, [[q, c.format(q)]]))
+    for _ in range(40 if ctx.quick else 600):
+        s = ctx.rng.choice(SEQ_STRINGS)
+        q = repr(s)
+        plans.append((s, [[ctx.rng.choice(SEQ_CONTEXTS).format(q) for _a in range(ctx.rng.randint(1, 3))]
+                          for _f in range(ctx.rng.randint(1, 3))]))
+    if ctx.quick:
+        fixed = plans[:4 * 12 * 2]       # two strings exhaustively …
+        rest = plans[4 * 12 * 2:]
+        ctx.rng.shuffle(rest)
+        plans = fixed + rest[:120]      # … and a sample of the others
+    for s, funcs in plans:
+        # module m1: the functions; module m2: an attribute and a function using the same text again
+        src1 = "import typing as t\nfrom typing import *\n"
+        uses: List[Tuple[str, str, str, str]] = []      # (module, object, slot, annotation source)
+        for fi, anns in enumerate(funcs):
+            params = ", ".join("p%d: %s" % (i, a) for i, a in enumerate(anns))
+            src1 += "def f%d(%s) -> %s:\n    pass\n" % (fi, params, anns[-1])
+            for i, a in enumerate(anns):
+                uses.append(("m1", "f%d" % fi, "p%d" % i, a))
+            uses.append(("m1", "f%d" % fi, "return", anns[-1]))
+        src2 = "import typing as t\nfrom typing import *\nattr: %s = None\ndef g(p0: %s) -> None:\n    pass\n" % (
+            repr(s), funcs[0][0])
+        uses.append(("m2", "attr", "attr", repr(s)))
+        uses.append(("m2", "g", "p0", funcs[0][0]))
+        try:
+            ast.parse(src1)
+            ast.parse(src2)
+        except SyntaxError:
+            ctx.count("sequence:unparsable-generated")
+            continue
+        shown_by_order: Dict[str, Dict[Tuple[str, str, str], str]] = {}
+        for order in ("doc", "reverse"):
+            system = model.System()
+            builder = system.systemBuilder(system)
+            builder.addModuleString(src1, "m1")
+            builder.addModuleString(src2, "m2")
+            builder.buildModules()
+            objs = [system.allobjects["m1"].contents["f%d" % fi] for fi in range(len(funcs))] + \
+                   [system.allobjects["m2"].contents["attr"], system.allobjects["m2"].contents["g"]]
+            if order == "reverse":
+                objs = objs[::-1]
+            sigs: Dict[str, str] = {}
+            per_use: Dict[Tuple[str, str, str], str] = {}
+            for o in objs:
+                modname = o.parent.name
+                if isinstance(o, model.Function):
+                    sigs[modname + "." + o.name] = flatten_text(pages.format_signature(o))   # what the page shows
+                    for pname, prm in o.signature.parameters.items():
+                        per_use[(modname, o.name, pname)] = "".join(gettext(prm.annotation._colorized.to_node()))
+                    ra = o.signature.return_annotation
+                    if hasattr(ra, "_colorized"):
+                        per_use[(modname, o.name, "return")] = "".join(gettext(ra._colorized.to_node()))
+                else:
+                    pt = epydoc2stan.get_parsed_type(o)
+                    per_use[(modname, o.name, "attr")] = "".join(gettext(pt.to_node()))
+            shown_by_order[order] = per_use
+            for (m, oname, slot, ann) in uses:
+                key = (m, oname, slot)
+                if key not in per_use:
+                    continue
+                text = per_use[key]
+                ctx.case("S|%s|%s|%s" % (order, src1, key), True, None)
+                ctx.count("stream:sequence")
+                try:
+                    toks = unstring_tokens(ast.parse(ann, mode="eval").body)
+                    reqs.append("pyval render 0 1 0 " + " ".join(toks))
+                    impls.append("ok 1 " + enc(text))
+                    pay.append({"modules": {"m1": src1, "m2": src2}, "order": order, "use": list(key), "annotation": ann})
+                except Skip:
+                    pass
+                v = annotation_verdict(ann, text)
+                # the signature as the page shows it must carry the same annotation
+                if v is None and slot.startswith("p") and (m + "." + oname) in sigs:
+                    try:
+                        fa = ast.parse("def f%s: pass" % sigs[m + "." + oname]).body[0].args
+                        got = {a.arg: a.annotation for a in fa.posonlyargs + fa.args + fa.kwonlyargs}.get(slot)
+                        exp = unstring_expected(ast.parse(ann, mode="eval").body)
+                        if got is None or norm_dump(got) != norm_dump(exp):
+                            v = ("annotation:signature-text-differs",
+                                 f"the signature {sigs[m + '.' + oname]!r} does not carry the annotation {ann} of {slot}")
+                    except SyntaxError:
+                        v = ("annotation:signature-text-differs", f"the signature {sigs[m + '.' + oname]!r} is not a parameter list")
+                if v is not None:
+                    ctx.fail(v[0], {"modules": {"m1": src1, "m2": src2}, "order": order, "use": list(key), "annotation": ann},
+                             f"[{order} order, {m}.{oname} {slot}] " + v[1])
+        d, r = shown_by_order.get("doc", {}), shown_by_order.get("reverse", {})
+        for key in d:
+            if key in r and d[key] != r[key]:
+                ctx.fail("annotation:display-depends-on-other-uses",
+                         {"modules": {"m1": src1, "m2": src2}, "use": list(key)},
+                         f"{key} is displayed as {d[key]!r} when rendered in documentation order and as {r[key]!r} in reverse order")
+    ctx.compare("pyval-sequence", reqs, impls, pay)
 
 
 # --------------------------------------------------------------------------- run
@@ -1316,11 +1461,43 @@ def run(ctx: Ctx) -> None:
     pipeline_stream(ctx)
     # 8. string annotations (unstring_annotation splices parsed sub-trees in)
     unstring_stream(ctx)
+    # 9. the same string annotation used several times, rendered in the real order
+    sequence_stream(ctx)
     ctx.extra["forms"] = len(FORMS)
 
 
 def replay(ctx: Ctx, obj) -> int:
     inp = obj.get("input") or obj.get("request") or {}
+    if isinstance(inp, dict) and "modules" in inp:
+        from pydoctor import model, epydoc2stan
+        from pydoctor.templatewriter import pages
+        from pydoctor.stanutils import flatten_text
+        from pydoctor.node2stan import gettext
+        m, oname, slot = inp["use"]
+        bad = 0
+        for order in ("doc", "reverse"):
+            system = model.System()
+            b = system.systemBuilder(system)
+            for name, src in inp["modules"].items():
+                b.addModuleString(src, name)
+            b.buildModules()
+            objs = [o for name in inp["modules"] for o in system.allobjects[name].contents.values()
+                    if isinstance(o, (model.Function, model.Attribute))]
+            for o in (objs if order == "doc" else objs[::-1]):
+                if isinstance(o, model.Function):
+                    flatten_text(pages.format_signature(o))
+            o = system.allobjects[m].contents[oname]
+            if slot == "attr":
+                text = "".join(gettext(epydoc2stan.get_parsed_type(o).to_node()))
+            elif slot == "return":
+                text = "".join(gettext(o.signature.return_annotation._colorized.to_node()))
+            else:
+                text = "".join(gettext(o.signature.parameters[slot].annotation._colorized.to_node()))
+            v = annotation_verdict(inp["annotation"], text) if "annotation" in inp else None
+            print(f"{order:8s}: {m}.{oname} {slot}: {inp.get('annotation')} -> {text!r}  oracle:",
+                  "holds" if v is None else v[0])
+            bad += v is not None
+        return 1 if bad else 0
     if isinstance(inp, dict) and "annotation" in inp:
         from pydoctor import astutils, model
         from pydoctor.epydoc.markup._pyval_repr import colorize_inline_pyval
